@@ -36,6 +36,16 @@ theorem c08_iftSens_sound (H M X : Mat) (h : iftSens H M = some X) :
     rw [List.forall₂_map_left_iff] at this
     exact this
 
+/-- **C08 (the executable step is the implicit-function rule).**  For a well-shaped Hessian `H` (n × n) and mixed
+    derivative `M` (n × k) what `iftSens` returns satisfies `H X = -M` as Mathlib matrices and equals `-H⁻¹ M`
+    whenever `H` is invertible: the sensitivity of the minimiser with respect to the data that `c08_ift_alg`
+    derives from stationarity. -/
+theorem c08_iftSens_is_rule (H M X : Mat) (n k : Nat) (hH : Shaped H n n) (hM : Shaped M n k)
+    (hn : 1 ≤ n) (hk : 1 ≤ k) (h : iftSens H M = some X) :
+    toM H n n * toM X n k = - toM M n k ∧
+    (IsUnit (toM H n n).det → toM X n k = - ((toM H n n)⁻¹ * toM M n k)) :=
+  iftSens_is_inverse H M X n k hH hM hn hk h
+
 end executable
 
 end PV
